@@ -45,7 +45,7 @@ where
 {
     let mut acc = Acc::new();
     let u = unit_roundoff::<T>();
-    let per = ctx.n(150, 12000);
+    let per = ctx.n(150, 100000);
     let floor = if T::IS_F32 { 1e-44 } else { 1e-320 };
     let mut idx = 0u64;
     for (fi, f) in [Func::SphJ0, Func::SphJ1, Func::SphJ2].iter().enumerate() {
@@ -77,6 +77,7 @@ where
                         continue;
                     }
                 };
+                ndv_core::evlog::log_unary("C15", tname, *f, &b, &slots, &got, T::IS_F32);
                 let jet = Jet::from_slots(&b, &slots);
                 let (want, tight, _) = model_point(*f, &jet, &b, &sph_tight(n, x0));
                 let eps = if T::IS_F32 { f32::EPSILON as f64 } else { f64::EPSILON };
